@@ -8,6 +8,7 @@
 #include <sstream>
 #include <string>
 #include <vector>
+#include <algorithm>
 
 using namespace ctpg;
 using namespace ctpg::ftors;
@@ -125,6 +126,24 @@ int main(int argc, char** argv) {
             if (!thrown.empty()) { ++fails; if (first.empty()) first = "grammar 2 input '" + in + "': parse threw " + thrown; continue; }
             if (r.has_value() != wok || (wok && *r != want)) { ++fails; if (first.empty()) first = "grammar 2 input '" + in + "': got " + (r ? std::to_string(*r) : std::string("empty")) + " expected " + (wok ? std::to_string(want) : std::string("empty")); }
             if (wok) ++accepted;
+        }
+    }
+    {   // grammar 3, one-dimensional sweep (not exhaustive): deep right recursion, so that many values are pending when the reductions
+        // start - around the stacks' reserved size (1024), its doublings, and the 16-bit limit
+        static constexpr nterm<std::string> rr("rr");
+        static const auto d = parser(rr, terms('a', 'b'), nterms(rr), rules(
+            rr('a') >= [](char c) { return std::string(1, c); }, rr('b') >= [](char c) { return std::string(1, c); },
+            rr('a', rr) >= [](char c, std::string&& rest) { rest.push_back(c); return std::move(rest); },
+            rr('b', rr) >= [](char c, std::string&& rest) { rest.push_back(c); return std::move(rest); }));
+        for (size_t len : {1u, 2u, 7u, 1023u, 1024u, 1025u, 2048u, 4097u, 65535u, 65536u, 65537u, 65538u, 70001u}) {
+            std::string in; for (size_t i = 0; i < len; ++i) in += ((i * 7 + i / 3) % 5 < 2) ? 'b' : 'a';
+            std::string want(in.rbegin(), in.rend());
+            ++cases; ++checks;
+            std::optional<std::string> r; std::string thrown;
+            try { r = d.parse(string_buffer(std::string(in))); } catch (const std::exception& e) { thrown = e.what(); }
+            if (!thrown.empty()) { ++fails; if (first.empty()) first = "deep right recursion, " + std::to_string(len) + " tokens: parse threw " + thrown; }
+            else if (!r || *r != want) { ++fails; if (first.empty()) first = "deep right recursion, " + std::to_string(len) + " tokens: the functors did not receive their own children's values (result differs from the reversed input" + (r ? " at position " + std::to_string(std::mismatch(r->begin(), r->end(), want.begin(), want.end()).first - r->begin()) : std::string(", empty")) + ")"; }
+            else ++accepted;
         }
     }
     std::string esc; for (char c : first) { if (c == '"' || c == '\\') esc += '\\'; esc += c; }
